@@ -1384,6 +1384,93 @@ def c12(ctx):
 
 
 # ---------------------------------------------------------------------------------------
+# C03 no panic / abort / overflow / out-of-bounds
+
+def run_miri(ctx, scripts, label):
+    """Execute scripts under Miri (thorough): undefined behaviour or a panic is a violation."""
+    sp = os.path.join(ctx.workdir, label + ".miri.scripts.ndjson")
+    tp = os.path.join(ctx.workdir, label + ".miri.trace.ndjson")
+    with open(sp, "w") as f:
+        for sc in scripts:
+            f.write(json.dumps(sc, separators=(",", ":")) + "\n")
+    env = {"MIRIFLAGS": "-Zmiri-disable-isolation -Zmiri-ignore-leaks", "CARGO_NET_OFFLINE": "true"}
+    p = vlib.sh(["cargo", "+nightly", "miri", "run", "--offline", "--quiet", "--target-dir", os.path.join(vlib.HARNESS, "target-miri"),
+                 "--no-default-features", "--features", "history,autocomplete,help", "--", "cli", sp, tp],
+                cwd=vlib.HARNESS, env=env, check=False, timeout=3000)
+    ctx.extra["miri_sessions"] = len(scripts)
+    if p.returncode != 0:
+        begun = None
+        for l in p.stdout.splitlines():
+            if l.startswith("BEGIN "):
+                begun = int(l.split()[1])
+            elif l.startswith("END "):
+                begun = None
+        if "Undefined Behavior" in p.stdout or begun is not None:
+            sc = next((x for x in scripts if x["sid"] == begun), None)
+            ctx.violation({"kind": "miri", "conjunct": "undefined behaviour / abort under Miri", "input": compact_script(sc) if sc else None},
+                          {"kind": "cli", "focus": "C03", "script": sc, "miri": p.stdout[-4000:]})
+        else:
+            raise vlib.ToolError("miri run failed:\n" + p.stdout[-3000:])
+    else:
+        # panics are recorded in the trace
+        for rec in vlib.read_ndjson(tp):
+            if rec.get("ev") == "panic":
+                sc = next((x for x in scripts if x["sid"] == rec["sid"]), None)
+                ctx.violation({"kind": "panic", "conjunct": "no panic / abort", "msg": rec.get("msg", "")[:200], "input": compact_script(sc) if sc else None},
+                              {"kind": "cli", "focus": "C03", "script": sc, "panic": rec})
+    for pth in (sp, tp):
+        if os.path.exists(pth):
+            os.remove(pth)
+
+
+@check("C03")
+def c03(ctx):
+    vh = vlib.build_harness()
+    rng = random.Random(ctx.seed)
+    q = ctx.tier == "quick"
+    # (i) the structural invariants imply the preconditions of every unchecked operation
+    for cap in ([0, 1, 2, 3, 4] if q else [0, 1, 2, 3, 4, 5, 6]):
+        r = vlib.tlc_mc(ctx.workdir, "MC_EditorBuf", "SPECIFICATION Spec\nCONSTANTS\n  Cap = %d\n  Chars = {97, 233, 20013, 128512}\nVIEW View\nINVARIANT Inv\nCHECK_DEADLOCK FALSE\n" % cap, want_T=False)
+        r["constants"] = {"Cap": cap}
+        ctx.add_mc(r)
+    for hcap in ([0, 1, 2, 3, 5, 6] if q else list(range(0, 10))):
+        r = vlib.tlc_mc(ctx.workdir, "MC_HistoryBuf", "SPECIFICATION Spec\nCONSTANTS\n  HCap = %d\nVIEW View\nINVARIANT Inv\nCHECK_DEADLOCK FALSE\n" % hcap, want_T=False)
+        r["constants"] = {"HCap": hcap}
+        ctx.add_mc(r)
+    # (ii) every transition of the composite model for every pair of small sizes, dead bytes poisoned
+    scripts = []
+    top = 2 if q else 4
+    for cmd in range(0, top + 1):
+        for hcap in range(0, top + 1):
+            consts = {"CmdCap": cmd, "HistCap": hcap, "Chars": [97, 233] if q else [97, 32, 233, 20013], "NameSet": "tiny", "WithApi": True}
+            sc = mc_cli_scripts(ctx, consts, rng, limit=400 if q else 6000, sid0=len(scripts) + 1)
+            for x in sc:
+                x["cfg"]["poison"] = True
+            scripts += sc
+    # (iii) arbitrary bytes, sizes 0..64 for both buffers, write / set_prompt interleaved
+    prof = {"cmd": list(range(0, 9)) + [13, 16, 31, 32, 33, 63, 64], "hcap": list(range(0, 9)) + [13, 16, 31, 32, 33, 63, 64],
+            "sets": ALLSETS, "prompts": [0, 1, 2, 3, 4, 5], "steps": (20, 160), "alphabet": ALLCH + sessions.W1,
+            "enter_forms": ENTER_FORMS, "hs_out": 0.4, "hs_prompt": 0.2, "partial": [0, 0, 5],
+            "w": {"rawbyte": 60, "char": 20, "ctl": 6, "csi": 4, "word": 8, "write": 4, "prompt": 3, "tab": 8, "up": 8, "down": 5, "enter": 8}}
+    rand = sessions.gen_sessions(rng, 1500 if q else 40000, prof, sid0=len(scripts) + 1)
+    for i, x in enumerate(rand):
+        x["cfg"]["poison"] = (i % 2 == 0)
+    scripts += rand
+    validate_cli(ctx, vh, scripts, "C03", "c03", shards=12)
+    if not q:
+        # Miri is slow here (about 15 s per session): a small sample of short boundary sessions
+        short = [x for x in scripts if len(x["steps"]) <= 25]
+        run_miri(ctx, rng.sample(short, min(24, len(short))), "c03")
+    ctx.assumptions.append("the observer is the real code built with debug assertions and overflow checks (std's unsafe-precondition "
+                           "checks abort); thorough adds Miri; sizes above 64 are covered by the closure argument only")
+    return ctx.finish("(i) TLC: implementation-shaped EditorBuf / HistoryBuf models assert the precondition of every unchecked slice, str, copy "
+                      "and unwrap operation in every reachable state for small buffers and refine Editor / History; (ii) every transition "
+                      "of MC_Cli for every pair of buffer sizes 0..%d replayed on the real code with dead buffer bytes poisoned; (iii) random "
+                      "streams over all 256 byte values with Cli::write / set_prompt interleaved, sizes 0..64; a panic, abort or signal "
+                      "is a violation; structural state invariants validated by TLC" % top)
+
+
+# ---------------------------------------------------------------------------------------
 
 def replay(pid, path):
     """Re-execute a replay file against the current tree and validate again."""
